@@ -48,7 +48,7 @@ def any_type(anytag, num=1002):
     return a
 
 
-DEFAULT_LAYOUT = ('first', 'mandatory', None)
+DEFAULT_LAYOUT = ('first', 'mandatory', None, 'mandatory')
 ORDERS = ('first', 'last', 'mid')
 GOVDECLS = ('mandatory', 'default-omitted', 'default-unset', 'default-other')
 
@@ -58,7 +58,8 @@ def make_schema(container, govkind, shape, anytag, tmap, layout=DEFAULT_LAYOUT, 
     layout = (order, govdecl, twin): where the governing field sits relative to the open-type field (before it, after
     it, after it with the OPTIONAL tail in front), how it is declared (mandatory, or DEFAULT with the value given in
     gov_default), and whether the container holds a second governing/open-type pair (gov2/blob2, same map)."""
-    order, govdecl, twin = layout
+    order, govdecl, twin = layout[:3]
+    blobdecl = layout[3] if len(layout) > 3 else 'mandatory'
     gov = univ.Integer() if govkind == 'int' else univ.ObjectIdentifier()
     types = dict((g, B.schema(t)) for g, t in tmap)
     a = any_type(anytag)
@@ -74,7 +75,9 @@ def make_schema(container, govkind, shape, anytag, tmap, layout=DEFAULT_LAYOUT, 
         g_nt = namedtype.NamedType('gov', govT)
     else:
         g_nt = namedtype.DefaultedNamedType('gov', govT.clone(gov_default))
-    b_nt = namedtype.NamedType('blob', field, openType=opentype.OpenType('gov', types))
+    # the open-type field itself may be declared OPTIONAL (it is present in every generated value)
+    b_nt = (namedtype.OptionalNamedType if blobdecl == 'optional' else namedtype.NamedType)(
+        'blob', field, openType=opentype.OpenType('gov', types))
     t_nt = namedtype.OptionalNamedType('tail', univ.Boolean().subtype(
         implicitTag=tag.Tag(tag.tagClassPrivate, tag.tagFormatSimple, 1001)))
     nts = {'first': [g_nt, b_nt, t_nt], 'last': [b_nt, t_nt, g_nt], 'mid': [t_nt, b_nt, g_nt]}[order]
@@ -98,6 +101,14 @@ def inner_ok(T, v, codec, defMode):
     except R.EmuRaises:
         return False
     return not (used - {'real-nr3-nodot'})
+
+
+def has_empty_constructed(T, v):
+    try:
+        top = R.parse_one(R.der(T, v), 0)
+    except Exception:
+        return True
+    return any(n.cons and n.content_end == n.content_off for n in top.walk())
 
 
 def blob_region(e, container, shape, anytag):
@@ -169,7 +180,14 @@ def run_case(res, rng, tier):
                     break
             else:
                 twin = None
-        layout = (order, govdecl, twin)
+        blobdecl = 'mandatory'
+        if anytag != 'untagged' and rng.random() < 0.4:
+            blobdecl = 'optional'       # (an untagged OPTIONAL ANY is ambiguous with whatever follows)
+            if codec in ('CER', 'DER') and (not inner_vals or any(has_empty_constructed(Tin, x) for x in inner_vals)):
+                # the pinned emptyable-optional finding: CER/DER leave out an OPTIONAL component - and whatever sits
+                # below it - whose constructed encoding has no contents
+                blobdecl = 'mandatory'
+        layout = (order, govdecl, twin, blobdecl)
     case = ('c18', container, govkind, shape, anytag, tuple(tmap), which, tuple(map(repr, inner_vals)), cname, resolution,
             layout, twin_case)
     feats = U.type_features(Tin, inner_vals[0] if inner_vals else None) | {
@@ -219,7 +237,8 @@ def check(res, case, feats, inner_vals):
     _, container, govkind, shape, anytag, tmap, which, _reprs, cname, resolution = case[:10]
     layout = tuple(case[10]) if len(case) > 10 else DEFAULT_LAYOUT
     twin_case = case[11] if len(case) > 11 else None
-    order, govdecl, twin = layout
+    order, govdecl, twin = layout[:3]
+    blobdecl = layout[3] if len(layout) > 3 else 'mandatory'
     enc, ekw, dec, codec, defMode = CODECS[cname]
     g, Tin = tmap[which]
     if twin is not None:
@@ -231,6 +250,7 @@ def check(res, case, feats, inner_vals):
     res.case(U.case_hash(case), U.base_of(Tin)[0] not in U.SIMPLE or Tin[0] == 'tag')
     res.see('cases:%s:%s:%s:%s' % (cname, anytag, shape, resolution))
     res.see('layout:%s:%s:%s' % (order, govdecl, 'twin-' + twin if twin else 'single-pair'))
+    res.see('open-type-field-declared:' + blobdecl)
     res.see('inner-kind:' + U.base_of(Tin)[0])
     schema = make_schema(container, govkind, shape, anytag, tmap, layout, gov_default)
     # ---- build and encode
